@@ -1,9 +1,11 @@
 """C09 - client protocol conduct."""
 FUNCTIONS = ['base_client.BaseClient._get_engineio_url', 'client.Client._send_packet',
              'async_client.AsyncClient._send_packet', 'client.Client._trigger_event',
-             'client.Client._receive_packet', 'client.Client.send', 'client.Client._write_loop', 'async_client.AsyncClient._write_loop']
+             'client.Client._receive_packet', 'client.Client.send', 'client.Client._write_loop',
+             'async_client.AsyncClient._write_loop', 'async_client.AsyncClient._trigger_event',
+             'async_client.AsyncClient._receive_packet', 'async_client.AsyncClient.send']
 
 LEVEL_TEXT = '_receive_packet answers a PING with one PONG carrying the same data, hands a MESSAGE to the handler exactly once (one background task) and ignores NOOP / unknown types; send() queues exactly one MESSAGE packet with the given payload, _send_packet queues in call order; _get_engineio_url equals the statement-derived URL function (http(s)/ws(s), caller query kept, endpoint stripped of slashes, transport and EIO=4)'
 LEVEL_NOTE = 'the clients\' write loops (threaded and asyncio) is under contract (batch = what was taken from the queue, in order; one POST body payload_text(batch); on WebSocket one frame wire(pkt) per packet in order; every packet marked done once); the probe upgrade and the receive time-outs are in the unverified loops; urlparse is a library contract (parts are functions of the URL)'
-NOT_DECIDED = ['_read_loop_* / _connect_websocket probe sequence', 'receive time-outs (silence detection)', 'AsyncClient twins']
+NOT_DECIDED = ['_read_loop_* / _connect_websocket probe sequence', 'receive time-outs (silence detection)']
 ASSUMPTIONS = [LEVEL_NOTE]
